@@ -8,6 +8,7 @@
 import hashlib
 import json
 import os
+import re
 import shutil
 import sqlite3
 import tempfile
@@ -39,8 +40,15 @@ class Files:
     """Scratch directory with a pristine empty template database."""
 
     def __init__(self, pg):
+        import pygaps.utilities.sqlite_db_creator as m_creator
+        import pygaps.utilities.sqlite_db_pragmas as m_pragmas
+        import pygaps.utilities.sqlite_utilities as m_util
         from pygaps.utilities.sqlite_db_pragmas import PRAGMAS
         from pygaps.utilities.sqlite_utilities import db_execute_general
+        from .core import REPO, Infra
+        for m in (m_pragmas, m_util, m_creator):  # the databases of the harness must come from the tree under check (PGV_REPO)
+            if not str(Path(m.__file__).resolve()).startswith(str(REPO.resolve())):
+                raise Infra(f"{m.__name__} imported from {m.__file__}, expected under {REPO}")
         self.dir = Path(tempfile.mkdtemp(prefix="pgv-db-"))
         self.template = self.dir / "template.db"
         for pragma in PRAGMAS:
@@ -57,24 +65,44 @@ class Files:
         shutil.rmtree(self.dir, ignore_errors=True)
 
 
+def key_tok(v):
+    """key / label column as a token (None only occurs when the schema under check lost a NOT NULL or a foreign key)"""
+    return "~" if v is None else (v if isinstance(v, str) else str(v))
+
+
+def _rows(cur, sql, width, conv):
+    """One table read.  When the table or a column the reads below name is not there (the schema of the tree under check differs from
+    the one the model stands for) the harness stays alive: the content is reported as one unreadable row, which never equals the
+    model's, and the oracle goes on judging the outcomes of the calls."""
+    try:
+        return [conv(r) for r in cur.execute(sql).fetchall()]
+    except sqlite3.OperationalError as e:
+        msg = "!unreadable:" + re.sub(r"[^A-Za-z0-9_.]+", "_", str(e))[:60]
+        return [msg] if width == 1 else [(msg,) + ("",) * (width - 1)]
+
+
 def read_tables(path):
     """Independent read of every table, ids resolved to names; same layout as `dumpDb` of the Lean driver."""
     con = sqlite3.connect(f"file:{path}?mode=ro", uri=True)
     cur = con.cursor()
-    ads = [r[0] for r in cur.execute("SELECT name FROM adsorbates ORDER BY id")]
-    ads_props = [(r[0], r[1], canon_val(r[2])) for r in cur.execute(
-        "SELECT a.name, p.type, p.value FROM adsorbate_properties p LEFT JOIN adsorbates a ON a.id = p.ads_id ORDER BY p.id")]
-    ads_types = [(r[0], r[1] or "", r[2] or "") for r in cur.execute("SELECT type, unit, description FROM adsorbate_properties_type ORDER BY id")]
-    mats = [r[0] for r in cur.execute("SELECT name FROM materials ORDER BY id")]
-    mat_props = [(r[0], r[1], canon_val(r[2])) for r in cur.execute(
-        "SELECT m.name, p.type, p.value FROM material_properties p LEFT JOIN materials m ON m.id = p.mat_id ORDER BY p.id")]
-    mat_types = [(r[0], r[1] or "", r[2] or "") for r in cur.execute("SELECT type, unit, description FROM material_properties_type ORDER BY id")]
-    iso_types = [(r[0], r[1] or "") for r in cur.execute("SELECT type, description FROM isotherm_type ORDER BY id")]
-    isos = [(r[0], r[1], r[2], r[3], canon_val(r[4])) for r in cur.execute("SELECT id, iso_type, material, adsorbate, temperature FROM isotherms ORDER BY rowid")]
-    iso_props = [(r[0], r[1], canon_val(r[2])) for r in cur.execute("SELECT iso_id, type, value FROM isotherm_properties ORDER BY id")]
-    iso_data = [(r[0], r[1], r[2], digest(r[3])) for r in cur.execute("SELECT iso_id, type, dtype, data FROM isotherm_data ORDER BY id")]
+    ads = _rows(cur, "SELECT name FROM adsorbates ORDER BY id", 1, lambda r: key_tok(r[0]))
+    ads_props = _rows(cur, "SELECT a.name, p.type, p.value FROM adsorbate_properties p LEFT JOIN adsorbates a ON a.id = p.ads_id ORDER BY p.id", 3,
+                      lambda r: (key_tok(r[0]), key_tok(r[1]), canon_val(r[2])))
+    ads_types = _rows(cur, "SELECT type, unit, description FROM adsorbate_properties_type ORDER BY id", 3, lambda r: (key_tok(r[0]), r[1] or "", r[2] or ""))
+    mats = _rows(cur, "SELECT name FROM materials ORDER BY id", 1, lambda r: key_tok(r[0]))
+    mat_props = _rows(cur, "SELECT m.name, p.type, p.value FROM material_properties p LEFT JOIN materials m ON m.id = p.mat_id ORDER BY p.id", 3,
+                      lambda r: (key_tok(r[0]), key_tok(r[1]), canon_val(r[2])))
+    mat_types = _rows(cur, "SELECT type, unit, description FROM material_properties_type ORDER BY id", 3, lambda r: (key_tok(r[0]), r[1] or "", r[2] or ""))
+    iso_types = _rows(cur, "SELECT type, description FROM isotherm_type ORDER BY id", 2, lambda r: (key_tok(r[0]), r[1] or ""))
+    isos = _rows(cur, "SELECT id, iso_type, material, adsorbate, temperature FROM isotherms ORDER BY rowid", 5,
+                 lambda r: (key_tok(r[0]), key_tok(r[1]), key_tok(r[2]), key_tok(r[3]), canon_val(r[4])))
+    iso_props = _rows(cur, "SELECT iso_id, type, value FROM isotherm_properties ORDER BY id", 3, lambda r: (key_tok(r[0]), key_tok(r[1]), canon_val(r[2])))
+    iso_data = _rows(cur, "SELECT iso_id, type, dtype, data FROM isotherm_data ORDER BY id", 4, lambda r: (key_tok(r[0]), key_tok(r[1]), key_tok(r[2]), digest(r[3])))
     integrity = cur.execute("PRAGMA integrity_check").fetchall()
-    fk = cur.execute("PRAGMA foreign_key_check").fetchall()
+    try:
+        fk = cur.execute("PRAGMA foreign_key_check").fetchall()
+    except sqlite3.OperationalError as e:       # e.g. "foreign key mismatch": a foreign key whose parent columns are not a key
+        fk = [("foreign_key_check failed", str(e))]
     con.close()
     return {"ads": ads, "adsProps": ads_props, "adsTypes": ads_types, "mats": mats, "matProps": mat_props, "matTypes": mat_types,
             "isoTypes": iso_types, "isos": isos, "isoProps": iso_props, "isoData": iso_data}, integrity, fk
@@ -98,6 +126,77 @@ def parse_reply(r):
 
 def norm_dump(s):
     return " | ".join(p.strip() for p in s.split("|"))
+
+
+# ----------------------------------------------------------------------------------------------- schema of a real database file
+SCHEMA_KEYWORDS = {"AUTOINCREMENT", "CHECK", "COLLATE", "GENERATED", "CONFLICT", "DEFERRABLE", "DEFERRED", "WITHOUT", "STRICT", "TEMP", "TEMPORARY",
+                   "VIRTUAL", "MATCH"}
+
+
+def _esc(s):
+    return str(s).replace("\\", "\\\\").replace("\n", "\\n").replace("\t", "\\t").replace(",", "\\c")
+
+
+def schema_lines(path):
+    """The schema of a database FILE in the line format of the Lean driver Drv/Schema.lean (`table <i>`, `other`), read through an
+    independent connection with PRAGMA table_xinfo / index_list / index_info / foreign_key_list and from sqlite_master.
+    Written independently of the translator's reader (pgv/translate.py: read_sqlite_schema)."""
+    con = sqlite3.connect(f"file:{path}?mode=ro", uri=True)
+    try:
+        names = sorted(r[0] for r in con.execute("SELECT name FROM sqlite_master WHERE type = 'table' AND name NOT LIKE 'sqlite\\_%' ESCAPE '\\'"))
+        lines, other = [], []
+        pks = {}
+        for t in names:
+            qt = '"' + t.replace('"', '""') + '"'
+            pks[t] = [r[1] for r in sorted((r for r in con.execute(f"PRAGMA table_xinfo({qt})").fetchall() if r[5]), key=lambda r: r[5])]
+        for t in names:
+            qt = '"' + t.replace('"', '""') + '"'
+            f = [_esc(t)]
+            for _cid, cname, ctype, notnull, dflt, pk, hidden in con.execute(f"PRAGMA table_xinfo({qt})").fetchall():
+                f += ["COL", _esc(cname), _esc(ctype or ""), "T" if notnull else "F", str(pk), "~" if dflt is None else "=" + _esc(dflt)]
+                if hidden:
+                    other.append(("hidden-column", t + "." + cname))
+            uniq = {tuple(pks[t])} if pks[t] else set()
+            for _seq, iname, unique, origin, partial in con.execute(f"PRAGMA index_list({qt})").fetchall():
+                qi = '"' + iname.replace('"', '""') + '"'
+                cols = tuple(r[2] for r in con.execute(f"PRAGMA index_info({qi})").fetchall())
+                if unique and not partial and None not in cols:
+                    uniq.add(cols)
+                if origin == "c":
+                    other.append(("unique-index" if unique else "index", iname))
+            for u in sorted(uniq):
+                f += ["UNIQ", ",".join(_esc(c) for c in u)]
+            fks = {}
+            for fid, seq, ptable, cfrom, cto, on_update, on_delete, _m in con.execute(f"PRAGMA foreign_key_list({qt})").fetchall():
+                fks.setdefault(fid, []).append((seq, cfrom, cto, ptable, on_delete.upper(), on_update.upper()))
+            rows = []
+            for g in fks.values():
+                g.sort()
+                to = [x[2] for x in g]
+                if None in to:
+                    to = pks.get(g[0][3], [])
+                rows.append(([x[1] for x in g], g[0][3], to, g[0][4], g[0][5]))
+            for cols, ptable, to, od, ou in sorted(rows):
+                f += ["FK", ",".join(_esc(c) for c in cols), _esc(ptable), ",".join(_esc(c) for c in to), _esc(od), _esc(ou)]
+            sql = con.execute("SELECT sql FROM sqlite_master WHERE type = 'table' AND name = ?", (t,)).fetchone()[0] or ""
+            bare = re.sub(r"--[^\n]*|/\*.*?\*/", " ", sql, flags=re.S)
+            bare = re.sub(r"'(?:[^']|'')*'|\"(?:[^\"]|\"\")*\"|`(?:[^`]|``)*`|\[[^\]]*\]", " ", bare)
+            for kw in sorted({w.upper() for w in re.findall(r"[A-Za-z_]+", bare)} & SCHEMA_KEYWORDS):
+                f += ["EXTRA", kw]
+            lines.append("\t".join(f))
+        for typ, name in con.execute("SELECT type, name FROM sqlite_master WHERE type NOT IN ('table', 'index')").fetchall():
+            other.append((typ, name))
+        return {"names": names, "tables": lines, "other": "\t".join(f"{_esc(a)},{_esc(b)}" for a, b in sorted(other))}
+    finally:
+        con.close()
+
+
+SQL_TABLE_RE = re.compile(r"""\b(?:FROM|INTO|UPDATE|JOIN|TABLE)\s+(?:IF\s+(?:NOT\s+)?EXISTS\s+)?["'`\[]?([A-Za-z_][A-Za-z0-9_]*)""", re.I)
+
+
+def tables_of_sql(sql):
+    """table names a statement addresses (the text actually handed to SQLite)"""
+    return set(SQL_TABLE_RE.findall(sql))
 
 
 # ----------------------------------------------------------------------------------------------- operation descriptions
@@ -160,8 +259,9 @@ def outcome_of(exc):
 class Plan:
     """Which `cursor.execute` call (0-based, counted over the whole public call) fails, and how."""
 
-    def __init__(self, k=None, kind=None):
+    def __init__(self, k=None, kind=None, log=None):
         self.k, self.kind, self.count, self.commits = k, kind, 0, 0
+        self.log = log              # list: the text of every statement handed to cursor.execute is appended
 
 
 class _Cursor:
@@ -172,6 +272,8 @@ class _Cursor:
         p = self._plan
         k = p.count
         p.count += 1
+        if p.log is not None:
+            p.log.append(sql)
         if p.k == k:
             if p.kind == "integrity":
                 raise self._mod.IntegrityError("injected fault")
